@@ -45,8 +45,7 @@ def drive(ctx, cases, label, env=None):
 def run(ctx):
     quick = ctx.tier == "quick"
     ctx.tlc_check("MCNodeTracker", ctx.write_cfg("NodeTracker.n2.cfg", R1 % ("N2", 7 if quick else 9, 3, "none")), label="as coded, 2 nodes", timeout=3000)
-    if not quick:
-        ctx.tlc_check("MCNodeTracker", ctx.write_cfg("NodeTracker.n3.cfg", R1 % ("N3", 4, 3, "none")), label="as coded, 3 nodes", timeout=6000)
+    ctx.tlc_check("MCNodeTracker", ctx.write_cfg("NodeTracker.n3.cfg", R1 % ("N3", 2 if quick else 4, 3, "none")), label="as coded, 3 nodes", timeout=6000)
     for d in DEVIATIONS:
         bad = ctx.tlc_check("MCNodeTracker", ctx.write_cfg("NodeTracker.%s.cfg" % d, R1 % ("N2", 9, 3, d)), label=d + " (must fail)", must_pass=False, timeout=3000)
         if bad.violated != "MonitorQuiet":
